@@ -66,7 +66,11 @@ V5Forgeries ==
                   q \in {MinPoll, MaxPoll + 1, NEVER} }
   ELSE {}
 
-Genuine == UNION { TimeAnswers(v) \cup Kisses(v) : v \in Versions }
+\* an authenticated KISS answer that nevertheless carries a fresh cookie (other servers may do that): no cookie is
+\* ever taken from it, however often it is delivered
+KissesWithCookie(v) == IF Nts THEN { [k EXCEPT !.cEnc = Rep(CLen, 1)] : k \in Kisses(v) } ELSE {}
+
+Genuine == UNION { TimeAnswers(v) \cup Kisses(v) \cup KissesWithCookie(v) : v \in Versions }
 SomeGenuine == UNION { { [Base(v) EXCEPT !.cEnc = Rep(CLen, IF Nts THEN 1 ELSE 0)] } \cup Kisses(v) : v \in Versions }
 
 Packets == Genuine \cup UNION { Deviations(x) : x \in SomeGenuine }
